@@ -419,8 +419,11 @@ Fixpoint clear_prefix_node (fuel : nat) (m : mem) (p : option addr) (prefix : ke
   end.
 
 (* deleteNodesLimit: the loop over branch.Children of the prepared branch a1.
-   (The panic "got branch with all nil children" is not modelled: no operation creates such a
-   branch.)  Results: new parent pointer, valuesDeleted. *)
+   Results: new parent pointer, valuesDeleted. *)
+(* valuesDeleted = panic_mark signals the Go panic "got branch with all nil children" (reachable
+   only through a snapshot whose parent was mutated in place afterwards) *)
+Definition panic_mark : N := 18446744073709551616.
+
 Definition dnl_loop (rec : mem -> option addr -> N -> mem * option addr * N) (a1 : addr) (pk : key)
   : nat -> nat -> mem -> nat -> N -> N -> mem * option addr * N :=
   fix loop n i m nilc limit vd :=
@@ -438,6 +441,7 @@ Definition dnl_loop (rec : mem -> option addr -> N -> mem * option addr * N) (a1
         | None => loop n' (S i) m nilc limit vd
         | Some ch =>
           let '(m1, ch', d) := rec m (Some ch) limit in
+          if (d =? panic_mark)%N then (m1, None, panic_mark) else
           let m2 := wr m1 a1 (fun c' => set_kids_c (set_nth i ch' (c_kids c')) c') in
           let nilc' := match ch' with None => S nilc | Some _ => nilc end in
           let limit' := (limit - d)%N in
@@ -463,9 +467,10 @@ Fixpoint dnl (fuel : nat) (m : mem) (p : option addr) (limit : N) {struct fuel} 
         | None => (m, p, 0%N)
         | Some c =>
           if negb (c_isb c) then (reg m a, None, 1%N)
+          else if count_kids (c_kids c) =? 0 then (m, None, panic_mark)
           else
             let '(m1, a1) := prep m a true in
-            dnl_loop (dnl f) a1 (c_pk c) 16 0 m1 (16 - count_kids (c_kids c)) limit 0%N
+            dnl_loop (dnl f) a1 (c_pk c) (length (c_kids c)) 0 m1 (16 - count_kids (c_kids c)) limit 0%N
         end
       end
   end.
@@ -496,6 +501,7 @@ Fixpoint clear_limit_node (fuel : nat) (m : mem) (p : option addr) (prefix : key
           | None => (m, Some a, 0%N, true)
           | Some ch =>
             let '(m1, ch', vd) := dnl (cfuel m) m (Some ch) limit in
+            if (vd =? panic_mark)%N then (m1, Some a, panic_mark, false) else
             if (vd =? 0)%N then (m1, Some a, 0%N, false)
             else
               let '(m2, a2) := prep m1 a true in
@@ -508,6 +514,7 @@ Fixpoint clear_limit_node (fuel : nat) (m : mem) (p : option addr) (prefix : key
           let idx := nth (length pk) prefix 0 in
           let '(m1, ch', vd, alld) :=
               clear_limit_node f m (nth idx (c_kids c) None) (skipn (S (length pk)) prefix) limit in
+          if (vd =? panic_mark)%N then (m1, Some a, panic_mark, alld) else
           if (vd =? 0)%N then (m1, Some a, 0%N, alld)
           else
             let '(m2, a2) := prep m1 a true in
@@ -724,13 +731,17 @@ Definition xexec (st : state) (s : xstep) : state * res * option (N * bool) :=
     match nth_error (s_hs st) i with
     | Some hd =>
       let '(m1, hd1, vd, alld) := clear_limit_handle (s_mem st) hd p limit in
-      (set_handle st i hd1 m1, ROk, Some (vd, alld))
+      if (vd =? panic_mark)%N then (st, RPanic, None)
+      else (set_handle st i hd1 m1, ROk, Some (vd, alld))
     | None => (st, RBad, None)
     end
   end.
 
 Definition xmutated_handle (s : xstep) : option nat :=
   match s with Core s0 => mutated_handle_pre s0 | ClearLimit i _ _ => Some i end.
+
+Definition xrun (hist : list xstep) (st : state) : state :=
+  fold_left (fun s x => fst (fst (xexec s x))) hist st.
 
 End Run.
 
@@ -748,3 +759,8 @@ Fixpoint frozen_ok (frozen : list nat) (hist : list step) : bool :=
     && frozen_ok (match s with Snap i => i :: frozen | _ => frozen end) r
   end.
 Definition frozen_parents (hist : list step) : bool := frozen_ok [] hist.
+
+(* the same contract for histories with ClearPrefixLimit steps (which mutate their handle) *)
+Definition xcore (s : xstep) : step :=
+  match s with Core s0 => s0 | ClearLimit i p _ => Clear i p end.
+Definition xfrozen_parents (hist : list xstep) : bool := frozen_parents (map xcore hist).
